@@ -3,7 +3,7 @@
    the end-to-end trace statement is checked by correspondence and the direct
    oracle: see MANIFEST level note. *)
 Require Import NX.Base.Prelude NX.Base.ListX NX.Model.PQ NX.Model.Sim.
-Require Import NX.Proofs.SimBasic NX.Proofs.SimDriver NX.Proofs.SimQueue NX.Proofs.SimTop NX.Proofs.SimSched.
+Require Import NX.Proofs.SimBasic NX.Proofs.SimDriver NX.Proofs.SimQueue NX.Proofs.SimTop NX.Proofs.SimSched NX.Proofs.SimTerm NX.Proofs.SimComplete.
 
 (* The next occurrence is keyed by the PULLED key's time plus the period - never
    by the clock or the current time - with the same origin and the same action
@@ -43,6 +43,18 @@ Theorem c10_only_live_heads_fire :
       In o (concat groups) \/ In o group \/ exists a, o = aop a /\ live s a.
 Proof. exact crit_live. Qed.
 Print Assumptions c10_only_live_heads_fire.
+
+(* No skipped occurrence: an entry leaves the queue during a step only cancelled
+   or fired; with c10_nothing_due_left every live occurrence due at the step's
+   time is fired in that step. *)
+Theorem c10_no_skipped_occurrence :
+  forall fuel s q bound cur group groups q' gs,
+    pq_wf q -> q_from q (fst cur) -> (exists a0, pq_peek q = Some (cur, a0)) ->
+    crit fuel s q bound cur group groups = Some (q', gs) ->
+    forall y, In y (items q) ->
+      In y (items q') \/ key_cancelled s (akey (ival y)) = true \/ In (aop (ival y)) (concat gs).
+Proof. exact crit_complete. Qed.
+Print Assumptions c10_no_skipped_occurrence.
 
 (* Instance of partition independence: two periodic actions (periods 3 and 1 ns,
    coinciding every 3 ns) up to T = 10 under three different partitions. *)
